@@ -104,6 +104,7 @@ fn any_sub_status(len: usize) -> SubscriptionMatchedStatus {
 #[kani::stub(critical_section::acquire, super::support_cs::cs_acquire)]
 #[kani::stub(critical_section::release, super::support_cs::cs_release)]
 fn c16_kernel_writer_unmatch_and_read() {
+    s1::link_drop_glue();
     let mut w = standalone_writer();
     let n: usize = kani::any();
     kani::assume(n <= 2);
@@ -195,6 +196,7 @@ fn reader_add(replace: bool) {
 #[kani::stub(critical_section::acquire, super::support_cs::cs_acquire)]
 #[kani::stub(critical_section::release, super::support_cs::cs_release)]
 fn c16_kernel_reader_match__known() {
+    s1::link_drop_glue();
     reader_add(true);
 }
 
@@ -208,6 +210,7 @@ fn c16_kernel_reader_match__known() {
 #[kani::stub(critical_section::acquire, super::support_cs::cs_acquire)]
 #[kani::stub(critical_section::release, super::support_cs::cs_release)]
 fn c16_kernel_reader_match__rest() {
+    s1::link_drop_glue();
     reader_add(false);
 }
 
@@ -222,6 +225,7 @@ fn c16_kernel_reader_match__rest() {
 #[kani::stub(critical_section::acquire, super::support_cs::cs_acquire)]
 #[kani::stub(critical_section::release, super::support_cs::cs_release)]
 fn c16_kernel_reader_unmatch_and_read() {
+    s1::link_drop_glue();
     let mut r = standalone_reader();
     let n: usize = kani::any();
     kani::assume(n <= 2);
@@ -335,6 +339,7 @@ fn writer_reader_disposed(disposed_matched: bool, check_proxy: bool) {
 #[kani::stub(critical_section::release, super::support_cs::cs_release)]
 #[kani::stub(tracing::level_filters::LevelFilter::current, super::support_qos::tracing_off)]
 fn c16_writer_reader_disposed_counts() {
+    s1::link_drop_glue();
     writer_reader_disposed(kani::any(), false);
 }
 
@@ -351,6 +356,7 @@ fn c16_writer_reader_disposed_counts() {
 #[kani::stub(critical_section::release, super::support_cs::cs_release)]
 #[kani::stub(tracing::level_filters::LevelFilter::current, super::support_qos::tracing_off)]
 fn c16_writer_reader_disposed_proxy__known() {
+    s1::link_drop_glue();
     writer_reader_disposed(true, true);
 }
 
@@ -366,6 +372,7 @@ fn c16_writer_reader_disposed_proxy__known() {
 #[kani::stub(critical_section::release, super::support_cs::cs_release)]
 #[kani::stub(tracing::level_filters::LevelFilter::current, super::support_qos::tracing_off)]
 fn c16_writer_reader_disposed_proxy__rest() {
+    s1::link_drop_glue();
     writer_reader_disposed(false, true);
 }
 
@@ -412,6 +419,7 @@ fn writer_participant_removed(removed: u8) {
 #[kani::stub(critical_section::acquire, super::support_cs::cs_acquire)]
 #[kani::stub(critical_section::release, super::support_cs::cs_release)]
 fn c16_writer_participant_removed__known() {
+    s1::link_drop_glue();
     writer_participant_removed(1);
 }
 
@@ -425,6 +433,7 @@ fn c16_writer_participant_removed__known() {
 #[kani::stub(critical_section::acquire, super::support_cs::cs_acquire)]
 #[kani::stub(critical_section::release, super::support_cs::cs_release)]
 fn c16_writer_participant_removed__rest() {
+    s1::link_drop_glue();
     writer_participant_removed(3);
 }
 
@@ -453,6 +462,7 @@ fn reader_fixture(p: &mut DcpsDomainParticipant, two: bool, q: u8) -> (InstanceH
 #[kani::stub(critical_section::release, super::support_cs::cs_release)]
 #[kani::stub(tracing::level_filters::LevelFilter::current, super::support_qos::tracing_off)]
 fn c16_reader_writer_disposed_counts() {
+    s1::link_drop_glue();
     let cap = sp::Capture::new();
     let mut p = sp::participant(&cap, 0);
     let two: bool = kani::any();
@@ -532,6 +542,7 @@ fn reader_participant_removed(removed: u8) {
 #[kani::stub(critical_section::acquire, super::support_cs::cs_acquire)]
 #[kani::stub(critical_section::release, super::support_cs::cs_release)]
 fn c16_reader_participant_removed__known() {
+    s1::link_drop_glue();
     reader_participant_removed(1);
 }
 
@@ -545,5 +556,6 @@ fn c16_reader_participant_removed__known() {
 #[kani::stub(critical_section::acquire, super::support_cs::cs_acquire)]
 #[kani::stub(critical_section::release, super::support_cs::cs_release)]
 fn c16_reader_participant_removed__rest() {
+    s1::link_drop_glue();
     reader_participant_removed(3);
 }
